@@ -22,7 +22,7 @@ META = dict(
     bounds=dict(quick=dict(processes="1..3 (parent vector and start ticks symbolic; n^n graphs enumerated by the solver, orderings decided symbolically)"), thorough=dict(processes="1..6 (children), 1..5 (parents)")),
     outside=["more than 5 processes", "the table changing while it is being walked, other than one process vanishing"],
     labels=["each-once", "never-itself", "never-older-than-caller", "direct-children-included", "only-direct-children", "only-reachable", "reachable-included", "terminates", "parent", "parents-chain",
-            "recycled-caller-NoSuchProcess"],
+            "recycled-caller-NoSuchProcess", "ancestor-vanishing-is-not-an-error"],
 )
 
 
@@ -45,6 +45,25 @@ def world(ctx, n, with_vanish=False, names=False):
         simk.full_process(k, p)
         k.files[f"/proc/{p}/stat"] = simk.stat_record(k, p, oddname if p == odd else b"proc", b"S", {4: pp[p], 22: st[p]})
     k.dirs["/proc"] = [str(p) for p in pids] + ["self", "stat", "net"]
+    # what else the kernel publishes about the tree (CONFIG_PROC_CHILDREN): /proc/<p>/task/<tid>/children lists the children THAT
+    # THREAD forked -- every process here has two threads, and which thread forked a child is symbolic.  Rendered only if read.
+    by_second = {}
+
+    def children_file(p, second):
+        def render():
+            out = []
+            for c in pids:
+                if c != p and bool(ctx.eq(pp[c], p)):
+                    if c not in by_second:
+                        by_second[c] = ctx.flag(f"forked_by_second_thread{c}")
+                    if by_second[c] == second:
+                        out.append(str(c))
+            return (" ".join(out) + " ") if out else ""
+        return render
+
+    for p in pids:
+        k.files[f"/proc/{p}/task/{p}/children"] = children_file(p, False)
+        k.files[f"/proc/{p}/task/{p + 1}/children"] = children_file(p, True)
     return k, pids, pp, st
 
 
@@ -181,6 +200,52 @@ def parents(ctx, n):
             return
     ctx.observe("parents", [p.pid for p in got])
     ctx.prove([p.pid for p in got] == chain, "parents-chain", detail=f"{[p.pid for p in got]} vs {chain}")
+
+
+@harness("C05.parent_vanish", quick=[dict(which=w) for w in ("parent", "parents")])
+def parent_vanish(ctx, which):
+    """an ancestor exits while parent()/parents() is looking at it (its stat record answers a symbolic number of reads, then ENOENT):
+    never an exception for a live caller; the answer is the one with the ancestor still there or the one with it gone"""
+    k, pids, pp, st = world(ctx, 3)
+    caller = pids[-1]
+    victim = pids[1]          # (the lowest PID is the one psutil treats as the root of every chain: it stays)
+    after = ctx.choice("vanish_after_reads", [0, 1, 2, 3])
+    reads = {"n": 0}
+    orig = k.files[f"/proc/{victim}/stat"]
+
+    def stat():
+        reads["n"] += 1
+        if reads["n"] > after:
+            k.procs.discard(victim)
+            raise simk.oserr(errno.ENOENT, f"/proc/{victim}/stat")
+        return orig
+
+    k.files[f"/proc/{victim}/stat"] = stat
+    chain, cur, steps = [], caller, 0
+    while True:       # reference chain: the statement's parent() rule iterated, as in C05.parents
+        if cur == pids[0]:
+            break
+        q = [x for x in pids if bool(pp[cur] == x)]
+        if not q or not bool(st[q[0]] <= st[cur]):
+            break
+        cur = q[0]
+        chain.append(cur)
+        steps += 1
+        if steps > 4:
+            ctx.assume(False)       # a cycle made entirely of same-tick processes: excluded (see assumptions)
+    k.access_budget = 600
+    with k.installed():
+        me = psutil.Process(caller)
+        if which == "parent":
+            got = ctx.guard("ancestor-vanishing-is-not-an-error", me.parent)
+            gp = got.pid if got is not None else None
+            full = chain[0] if chain else None
+            ctx.prove(gp == full or (gp is None and full == victim), "ancestor-vanishing-is-not-an-error", detail=f"parent() -> {gp}; with the ancestor alive: {full}; vanishing: {victim} after {after} reads")
+        else:
+            got = [x.pid for x in ctx.guard("ancestor-vanishing-is-not-an-error", me.parents)]
+            i = chain.index(victim) if victim in chain else len(chain)
+            cut = chain[:i]            # gone before it was looked at; chain[:i + 1]: seen, then gone before its own parent was asked
+            ctx.prove(got in (chain, cut, chain[:i + 1]), "ancestor-vanishing-is-not-an-error", detail=f"parents() -> {got}; with the ancestor alive: {chain}; vanishing: {victim} after {after} reads")
 
 
 @harness("C05.recycled_caller", quick=[dict(which=w, waited=wd) for w in ("children", "children_r", "parent", "parents") for wd in (False, True)])
